@@ -247,8 +247,8 @@ pub fn seeds_for(name: &str) -> Vec<Vec<u8>> {
         "Bytes::try_from(&str)" | "encoding::try_from_base64url" => vec![b"AQID-_8".to_vec(), b"AQID+/8=".to_vec()],
         "valid_fingerprint" => vec![super::common::FP.as_bytes().to_vec()],
         "ListProvider<second table>" => vec![b"www.example.com".to_vec(), b"a.intra.corp".to_vec(), b"x.y.lab".to_vec(), b"gate.lab".to_vec(), b"example.test".to_vec()],
-        "assert_domain(host=rp-pair)" => vec!["www.bücher.example=bücher.example".as_bytes().to_vec(), b"a.b.xn--55qx5d.cn=xn--55qx5d.cn".to_vec(), "é.com=x.com".as_bytes().to_vec()],
-        "UnverifiedAssetLink::new+assert_domain" | "RpIdVerifier(web)" | "public_suffix" => vec![b"www.example.co.uk".to_vec(), b"a.b.xn--55qx5d.cn".to_vec(), b"x.www.ck".to_vec()],
+        "assert_domain(host=rp-pair)" => vec!["www.bücher.example=bücher.example".as_bytes().to_vec(), b"a.b.xn--55qx5d.cn=xn--55qx5d.cn".to_vec(), "é.com=x.com".as_bytes().to_vec(), b"example.co.uk:8=example.co.uk".to_vec(), b"www.example.com:8=example.com".to_vec()],
+        "UnverifiedAssetLink::new+assert_domain" | "RpIdVerifier(web)" | "public_suffix" => vec![b"www.example.co.uk".to_vec(), b"a.b.xn--55qx5d.cn".to_vec(), b"x.www.ck".to_vec(), b"example.co.uk:8".to_vec()],
         _ => vec![],
     }
 }
@@ -288,7 +288,7 @@ fn json_splices() -> Vec<Vec<u8>> {
     v
 }
 fn text_splices() -> Vec<Vec<u8>> {
-    let mut v: Vec<Vec<u8>> = [".", "..", "xn--", "xn--a", "=", "==", "-", "_", "+", "/", ":", "A", "é", "\u{0}", " ", "%", "[", "]", "@", "localhost", "B3:", "*", "!"].iter().map(|s| s.as_bytes().to_vec()).collect();
+    let mut v: Vec<Vec<u8>> = [".", "..", "xn--", "xn--a", "=", "==", "-", "_", "+", "/", ":", "A", "é", "\u{0}", " ", "%", "[", "]", "@", "localhost", "B3:", "*", "!", "0", "080", "65535", "65536", "4294967296", "18446744073709551616", "99999999999999999999999999999999999999999", "-1", "+80", "٣"].iter().map(|s| s.as_bytes().to_vec()).collect();
     v.push(vec![b'a'; 300]);
     v.push(vec![b'.'; 300]);
     v.push((0..2000).flat_map(|_| b"a.".to_vec()).collect());
@@ -1226,7 +1226,7 @@ pub fn run(ctx: &Ctx) -> Result<Run, String> {
     let ndec = sp.decs.len();
     let mut run = Run::from_stats(
         "exploration",
-        "for each of 28 public decoders (CTAP2 CBOR messages, authenticator data, WebAuthn JSON, base64, U2F raw messages, COSE-key converter, fingerprints, asset links, RP-ID verification, public-suffix lookups): (1) all byte strings up to length 2 (3 thorough) / all strings over an 8-symbol alphabet up to length 5 (7 thorough); (2) every single deviation of valid seed encodings of every message type: truncation at every position, every byte value at every position (CBOR/binary; a 17-symbol menu for JSON/text), and splices at every position of CBOR heads of every major type with declared lengths 2^8..2^64-1 / indefinite, 300-, 3000- and 100000-deep nesting (binary layouts that embed CBOR items included), JSON structure/number/escape fragments, long and dotted labels, and length-preserving overwrites by the 2..4-byte fragments (a multi-byte character in the place of two digits) (thorough: all pairs of byte-level deviations on short seeds); run in isolated worker processes with a counting allocator (single request > 4 MiB + 32 x input length, or > 256 MiB in total = out of proportion; > 1 GiB refused), 8 MiB stack, per-case watchdog; (2c) well-formed base64 / base64url text, padded or not, of every decoded length 0..4200 (thorough 20000) through Bytes::try_from, try_from_base64url and a JSON Bytes member (must decode to the bytes; no panic at any size boundary); (2g) an RP-ID verifier whose user-supplied suffix provider panicked once (unwind caught, or on a thread that died) answers five further RP IDs without panicking and as before; (2f) allow / exclude lists that are every sequence over three ids of length 0..5 (thorough 6), with mixed transports hints, through the JSON option parsers (text and owned value) and the CBOR request decoders; (2e) every name derived from a rule of the shipped list (as-is, wildcard instantiations, parent, sibling, 1..12 further labels in front) through the three lookups and the RP-ID verifier; (2d) key kinds: for the richest seed of every CBOR decoder and every map in it (top level and nested), and for authenticator data with ED resp. AT+ED, every ordered pair of added keys from 19 kinds (small/large/negative integers, text, bytes, floats incl. NaN, -0.0 and infinity, booleans, null, empty array, empty map, tag), in front and at the end - well-formed input, the decoder must return; (2b) COSE keys built as structs (0..2 entries per coordinate from a menu of lengths and types, three label orders, repeated labels included) given to the converter directly; (4) scaling families: 14 well-formed message shapes whose collection (PRF per-credential map, allow/exclude list, parameter list, unknown members, COSE parameters, JSON lists and maps, base64 text) grows to 256, 1024, 4096, 16384 (thorough: 65536) elements, with ids/keys that differ only at the front, only at the end or only in the middle, decoded in isolated workers: 4x the elements may not cost more than 9x the CPU time (judged once the larger run exceeds 10 ms, confirmed by a second measurement) nor an allocation out of proportion; (3b) CTAPHID with 1..300 (4096) channels transmitting at once; (3) CTAPHID: BFS over packet sequences on the real ChannelHandler (alphabet: 2 channels x 8 init heads + 4 continuation sequence numbers x 13 packet sizes), deduplicated on the hook snapshot. Non-trivial = distinct non-empty input",
+        "for each of 28 public decoders (CTAP2 CBOR messages, authenticator data, WebAuthn JSON, base64, U2F raw messages, COSE-key converter, fingerprints, asset links, RP-ID verification, public-suffix lookups): (1) all byte strings up to length 2 (3 thorough) / all strings over an 8-symbol alphabet up to length 5 (7 thorough); (2) every single deviation of valid seed encodings of every message type: truncation at every position, every byte value at every position (CBOR/binary; a 17-symbol menu for JSON/text), and splices at every position of CBOR heads of every major type with declared lengths 2^8..2^64-1 / indefinite, 300-, 3000- and 100000-deep nesting (binary layouts that embed CBOR items included), JSON structure/number/escape fragments, long and dotted labels, numbers at and beyond the 16/32/64-bit limits (in the place of a port digit of host:port seeds), and length-preserving overwrites by the 2..4-byte fragments (a multi-byte character in the place of two digits) (thorough: all pairs of byte-level deviations on short seeds); run in isolated worker processes with a counting allocator (single request > 4 MiB + 32 x input length, or > 256 MiB in total = out of proportion; > 1 GiB refused), 8 MiB stack, per-case watchdog; (2c) well-formed base64 / base64url text, padded or not, of every decoded length 0..4200 (thorough 20000) through Bytes::try_from, try_from_base64url and a JSON Bytes member (must decode to the bytes; no panic at any size boundary); (2g) an RP-ID verifier whose user-supplied suffix provider panicked once (unwind caught, or on a thread that died) answers five further RP IDs without panicking and as before; (2f) allow / exclude lists that are every sequence over three ids of length 0..5 (thorough 6), with mixed transports hints, through the JSON option parsers (text and owned value) and the CBOR request decoders; (2e) every name derived from a rule of the shipped list (as-is, wildcard instantiations, parent, sibling, 1..12 further labels in front) through the three lookups and the RP-ID verifier; (2d) key kinds: for the richest seed of every CBOR decoder and every map in it (top level and nested), and for authenticator data with ED resp. AT+ED, every ordered pair of added keys from 19 kinds (small/large/negative integers, text, bytes, floats incl. NaN, -0.0 and infinity, booleans, null, empty array, empty map, tag), in front and at the end - well-formed input, the decoder must return; (2b) COSE keys built as structs (0..2 entries per coordinate from a menu of lengths and types, three label orders, repeated labels included) given to the converter directly; (4) scaling families: 14 well-formed message shapes whose collection (PRF per-credential map, allow/exclude list, parameter list, unknown members, COSE parameters, JSON lists and maps, base64 text) grows to 256, 1024, 4096, 16384 (thorough: 65536) elements, with ids/keys that differ only at the front, only at the end or only in the middle, decoded in isolated workers: 4x the elements may not cost more than 9x the CPU time (judged once the larger run exceeds 10 ms, confirmed by a second measurement) nor an allocation out of proportion; (3b) CTAPHID with 1..300 (4096) channels transmitting at once; (3) CTAPHID: BFS over packet sequences on the real ChannelHandler (alphabet: 2 channels x 8 init heads + 4 continuation sequence numbers x 13 packet sizes), deduplicated on the hook snapshot. Non-trivial = distinct non-empty input",
         true,
         stats,
     );
